@@ -56,6 +56,8 @@ type cliPath struct {
 	Choices  string
 	Bound    map[string]bool
 	Indexed  map[token.Pos]bool // index and slice expressions evaluated in range on this path
+	// FlagDecided: boolean flags whose opaque value a model had to decide on this path (flag.Visit)
+	FlagDecided map[string]bool
 }
 
 const (
@@ -128,7 +130,12 @@ func cliRun(prog *load.Program, env cliEnv, choices *interp.Choices) (*cliPath, 
 	m := interp.New(prog)
 	m.Choices = choices
 	m.Indexed = map[token.Pos]bool{}
-	p := &cliPath{Env: env, NonNil: map[int]bool{}, NotExist: map[int]bool{}, Bound: map[string]bool{}}
+	p := &cliPath{Env: env, NonNil: map[int]bool{}, NotExist: map[int]bool{}, Bound: map[string]bool{}, FlagDecided: map[string]bool{}}
+	type flagRec struct {
+		get    func() interp.Value
+		isBool bool
+	}
+	declared := map[string]*flagRec{}
 	nerr := 0
 	errVal := func(what string) (interp.Value, int) {
 		nerr++
@@ -180,6 +187,7 @@ func cliRun(prog *load.Program, env cliEnv, choices *interp.Choices) (*cliPath, 
 					return nil, &interp.ErrUndecided{Pos: pos, Msg: "a flag is bound to something that is not the address of a variable or field, or under a name that is not constant"}
 				}
 				ref.Set(bind(name, kind == "Bool"))
+				declared[name] = &flagRec{get: ref.Get, isBool: kind == "Bool"}
 				return interp.NilV{}, nil
 			}
 			m.Ext[prefix+kind] = func(mm *interp.Machine, pos token.Pos, recv interp.Value, a []interp.Value) (interp.Value, error) {
@@ -191,7 +199,70 @@ func cliRun(prog *load.Program, env cliEnv, choices *interp.Choices) (*cliPath, 
 					return nil, &interp.ErrUndecided{Pos: pos, Msg: "a flag is declared under a name that is not constant"}
 				}
 				cell := bind(name, kind == "Bool")
+				declared[name] = &flagRec{get: func() interp.Value { return cell }, isBool: kind == "Bool"}
 				return &interp.Ref{ID: "flag " + name, Get: func() interp.Value { return cell }, Set: func(v interp.Value) { cell = v }}, nil
+			}
+		}
+		// Visit calls fn for the flags that were set, in lexical order; VisitAll for all. A boolean flag with
+		// an opaque value is decided on the spot (the decision is kept for the path); a false one is visited
+		// as set explicitly (-stub=false).
+		for _, all := range []bool{false, true} {
+			all := all
+			name := "Visit"
+			if all {
+				name = "VisitAll"
+			}
+			m.Ext[prefix+name] = func(mm *interp.Machine, pos token.Pos, recv interp.Value, a []interp.Value) (interp.Value, error) {
+				if len(a) != 1 {
+					return nil, &interp.ErrUndecided{Pos: pos, Msg: "flag." + name + " arity"}
+				}
+				var names []string
+				for n := range declared {
+					names = append(names, n)
+				}
+				sort.Strings(names)
+				for _, n := range names {
+					rec := declared[n]
+					v := rec.get()
+					set := true
+					var text interp.Value
+					switch x := v.(type) {
+					case bool:
+						set = x
+						text = interp.Lit(fmt.Sprint(x))
+					case *interp.Unknown:
+						if !rec.isBool {
+							return nil, &interp.ErrUndecided{Pos: pos, Msg: "flag." + name + ": the value of -" + n + " is not determined"}
+						}
+						b, err := mm.TruthOf(x, "0:"+x.Why)
+						if err != nil {
+							return nil, err
+						}
+						p.FlagDecided[n] = b
+						text = interp.Lit(fmt.Sprint(b))
+						// a false flag may still have been set explicitly (-stub=false): that is the case
+						// taken — for code that looks at the value it is the same as not being visited
+					case *interp.Sym:
+						text = x
+						if c, ok := x.Concrete(); ok && c == "" {
+							set = false
+						}
+					default:
+						return nil, &interp.ErrUndecided{Pos: pos, Msg: "flag." + name + ": the value of -" + n + " is outside the vocabulary"}
+					}
+					if !set && !all {
+						continue
+					}
+					txt := text
+					val := &interp.Opaque{Kind: "flag.Value", ID: "value of -" + n, GoType: "flag.Value", Methods: map[string]func(*interp.Machine, token.Pos, []interp.Value) (interp.Value, error){
+						"String": func(*interp.Machine, token.Pos, []interp.Value) (interp.Value, error) { return txt, nil },
+					}}
+					fl := &interp.Opaque{Kind: "flag.Flag", ID: "flag -" + n, GoType: "*flag.Flag", Attrs: map[string]interp.Value{"Name": interp.Lit(n), "Value": val, "Usage": interp.Lit(""), "DefValue": interp.Lit("")}}
+					if _, err := mm.Call(pos, a[0], []interp.Value{fl}); err != nil {
+						return nil, err
+					}
+				}
+				return interp.NilV{}, nil
 			}
 		}
 		m.Ext[prefix+"Parse"] = func(mm *interp.Machine, pos token.Pos, recv interp.Value, a []interp.Value) (interp.Value, error) {
@@ -758,6 +829,12 @@ func cliFlag(c *Ctx, flagName string) {
 				default:
 					u, isU := v.(*interp.Unknown)
 					ok = isU && u.Why == "flag:"+flagName
+					// the value was decided on this path (flag.Visit): the field holds that decision
+					if b, isB := v.(bool); isB {
+						if d, decided := p.FlagDecided[flagName]; decided && d == b {
+							ok = true
+						}
+					}
 				}
 				// the other fields: the source directory is the first argument
 				if sd, has := cfg.Fields["SrcDir"]; has && !symIs(sd, "«arg0»") {
